@@ -60,6 +60,63 @@ def mode_term(sv, msg):
     return sv.expr('xfrm.Mode.TRANSPORT if %s.get_notifies(PayloadNOTIFY.Type.USE_TRANSPORT_MODE, True) else xfrm.Mode.TUNNEL' % msg)
 
 
+def ts_kernel_view(ctx, rule):
+    """the three conversions between a traffic selector and what configuration / kernel use: from_network (network, port, protocol ->
+    selector), get_port (selector -> the kernel's single port, 0 = any) and get_network (selector -> the smallest network that covers
+    the range, found by widening the start address's network until the end address is inside)"""
+    fn_ = ctx.func('message.TrafficSelector.from_network')
+    F = ctx.sval(fn_)
+    psn = fn_.call_params()
+    r = F.ret()
+    ok = tq.is_call(r, 'new message.TrafficSelector')
+    if ok:
+        a = tq.args(r)
+        net, port, proto = (('param', x) for x in psn[:3])
+        ok = a.get('ip_proto') == proto and a.get('start_port') == port and a.get('start_addr') == ('index', net, const(0)) \
+            and a.get('end_addr') == ('index', net, const(-1))
+        ends = common.term_table(ctx, a.get('end_port', NONE), [{psn[1]: 0}, {psn[1]: 80}, {psn[1]: 65535}], None)
+        ok = ok and ends == [65535, 80, 65535]
+        tys = []
+        for v in (4, 6):
+            def leaf(t, v=v):
+                if strip_ids(t) == attr(('index', net, const(0)), 'version'):
+                    return v
+                if t[0] == 'global':
+                    return t[1].split('.')[-1]
+                raise tq.NoValue()
+            try:
+                tys.append(tq.teval(a.get('ts_type', NONE), leaf))
+            except (tq.NoValue, Exception):
+                tys.append(None)
+        ok = ok and tys == ['TS_IPV4_ADDR_RANGE', 'TS_IPV6_ADDR_RANGE']
+    ctx.check(ok, rule, 'from_network: port 0 means 0..65535, otherwise the single port; addresses are the first and last of '
+              'the network; type by IP version', key=(rule, 'from-network'), site=ctx.site(fn_, fn_.node), detail={'returned': tq.text(r, 500)})
+    gp = ctx.func('message.TrafficSelector.get_port')
+    vals = {}
+    for sp, ep in ((0, 65535), (0, 0), (80, 80), (1, 65535), (0, 65534), (443, 443)):
+        v = common.term_table(ctx, ctx.sval(gp).ret(), [{'self.start_port': sp, 'self.end_port': ep}], None)
+        vals[(sp, ep)] = v[0] if v else None
+    ctx.check(vals == {(0, 65535): 0, (0, 0): 0, (80, 80): 80, (1, 65535): 65535, (0, 65534): 65534, (443, 443): 443}, rule,
+              'get_port is the inverse: the full range gives 0, a single port gives that port', key=(rule, 'get-port'),
+              site=ctx.site(gp, gp.node), detail={'found': {str(k): v for k, v in vals.items()}})
+    gn = ctx.func('message.TrafficSelector.get_network')
+    N = ctx.sval(gn)
+    loops = list(N.loops.items())
+    ok = len(loops) == 1 and isinstance(loops[0][1][0], ast.While)
+    if ok:
+        lid = loops[0][0]
+        ups, inits = N.loop_updates[lid], N.loop_inits[lid]
+        var = [k for k, v in inits.items() if same(v, N.expr('ip_network(self.start_addr)'))]
+        ok = len(var) == 1
+        if ok:
+            cur = ('acc', var[0], 0)
+            ok = strip_ids(loops[0][1][1]) == ('while', ('not', strip_ids(N.mk_cmp('in', attr(SELF, 'end_addr'), cur)))) and \
+                strip_ids(ups[var[0]]) == ('call', 'method.supernet', cur, ()) and \
+                [strip_ids(t)[:2] for _, t, _ in N.returns] == [('loopout', var[0])]
+    ctx.check(ok, rule, 'get_network is the smallest network starting at start_addr widened until it contains end_addr',
+              key=(rule, 'get-network'), site=ctx.site(gn, gn.node))
+
+
 def run(ctx):
     prog, res = ctx.prog, ctx.res
     esc = ctx.escape('engine', kills=common.engine_kills(ctx))
@@ -275,57 +332,7 @@ def run(ctx):
               detail={'counterexample': {k: v for k, v in bad[0].items()}, 'got': bad[1], 'expected': bad[2]} if bad else None)
 
     # ---------------------------------------------------------------- R5
-    fn_ = ctx.func('message.TrafficSelector.from_network')
-    F = ctx.sval(fn_)
-    psn = fn_.call_params()
-    r = F.ret()
-    ok = tq.is_call(r, 'new message.TrafficSelector')
-    if ok:
-        a = tq.args(r)
-        net, port, proto = (('param', x) for x in psn[:3])
-        ok = a.get('ip_proto') == proto and a.get('start_port') == port and a.get('start_addr') == ('index', net, const(0)) \
-            and a.get('end_addr') == ('index', net, const(-1))
-        ends = common.term_table(ctx, a.get('end_port', NONE), [{psn[1]: 0}, {psn[1]: 80}, {psn[1]: 65535}], None)
-        ok = ok and ends == [65535, 80, 65535]
-        tys = []
-        for v in (4, 6):
-            def leaf(t, v=v):
-                if strip_ids(t) == attr(('index', net, const(0)), 'version'):
-                    return v
-                if t[0] == 'global':
-                    return t[1].split('.')[-1]
-                raise tq.NoValue()
-            try:
-                tys.append(tq.teval(a.get('ts_type', NONE), leaf))
-            except (tq.NoValue, Exception):
-                tys.append(None)
-        ok = ok and tys == ['TS_IPV4_ADDR_RANGE', 'TS_IPV6_ADDR_RANGE']
-    ctx.check(ok, 'R5', 'from_network: port 0 means 0..65535, otherwise the single port; addresses are the first and last of '
-              'the network; type by IP version', key=('R5', 'from-network'), site=ctx.site(fn_, fn_.node), detail={'returned': tq.text(r, 500)})
-    gp = ctx.func('message.TrafficSelector.get_port')
-    vals = {}
-    for sp, ep in ((0, 65535), (0, 0), (80, 80), (1, 65535), (0, 65534), (443, 443)):
-        v = common.term_table(ctx, ctx.sval(gp).ret(), [{'self.start_port': sp, 'self.end_port': ep}], None)
-        vals[(sp, ep)] = v[0] if v else None
-    ctx.check(vals == {(0, 65535): 0, (0, 0): 0, (80, 80): 80, (1, 65535): 65535, (0, 65534): 65534, (443, 443): 443}, 'R5',
-              'get_port is the inverse: the full range gives 0, a single port gives that port', key=('R5', 'get-port'),
-              site=ctx.site(gp, gp.node), detail={'found': {str(k): v for k, v in vals.items()}})
-    gn = ctx.func('message.TrafficSelector.get_network')
-    N = ctx.sval(gn)
-    loops = list(N.loops.items())
-    ok = len(loops) == 1 and isinstance(loops[0][1][0], ast.While)
-    if ok:
-        lid = loops[0][0]
-        ups, inits = N.loop_updates[lid], N.loop_inits[lid]
-        var = [k for k, v in inits.items() if same(v, N.expr('ip_network(self.start_addr)'))]
-        ok = len(var) == 1
-        if ok:
-            cur = ('acc', var[0], 0)
-            ok = strip_ids(loops[0][1][1]) == ('while', ('not', strip_ids(N.mk_cmp('in', attr(SELF, 'end_addr'), cur)))) and \
-                strip_ids(ups[var[0]]) == ('call', 'method.supernet', cur, ()) and \
-                [strip_ids(t)[:2] for _, t, _ in N.returns] == [('loopout', var[0])]
-    ctx.check(ok, 'R5', 'get_network is the smallest network starting at start_addr widened until it contains end_addr',
-              key=('R5', 'get-network'), site=ctx.site(gn, gn.node))
+    ts_kernel_view(ctx, 'R5')
     fe = ctx.func('message.PayloadNOTIFY.from_exception')
     ctx.check(common.notify_type_of(ctx, 'TsUnacceptable') == 'TS_UNACCEPTABLE', 'R5', 'TsUnacceptable -> TS_UNACCEPTABLE', key=('R5', 'table'), site=ctx.site(fe, fe.node))
     ok = False
